@@ -224,9 +224,27 @@ def run_case(case):
     return obs
 
 
+# programs that need (nearly) the whole runtime library at once: the largest bundles, every size tag in one text
+MAXIMAL = [
+    '10 CLS 3:PRINT@5,"A";TAB(3);B:LOCATE 1,2:ATTR 1,2,B,U:WIDTH 40:PALETTE 1,2:PALETTE RGB:CMP\n'
+    '20 HSCREEN 2:HCLS 3:HCOLOR 1,2:HCIRCLE(1,2),3,4,5,6,7:HLINE(1,2)-(3,4),PSET,BF:HSET(1,2,3):HRESET(1,2):HPAINT(1,2),3,4\n'
+    '30 HPRINT(1,2),"A":HDRAW "U10":PLAY "CDE":HBUFF 1,100:HGET(1,2)-(3,4),1:HPUT(1,2)-(3,4),1,PSET:SET(1,2,3):RESET(1,2)\n'
+    '40 SOUND 1,2:POKE 1,2:POKE 65496,0:A=BUTTON(0)+JOYSTK(1)+POINT(1,2):A$=INKEY$:INPUT "X";A,B$:LINE INPUT C$\n'
+    '50 A=INT(B)+VAL(A$)+INSTR(1,A$,B$)+LEN(STR$(A)+HEX$(B)+STRING$(3,"A")):READ D,E$:DATA 1,,X\n'
+    '60 ON ERR GOTO 70:ON BRK GOTO 70:X(1)=VARPTR(A)+ERNO\n70 END\n',
+    '10 HDRAW A$:PLAY B$:A=INSTR(1,A$,B$):C$=STRING$(3,"X"):B=VAL(A$)\n',
+    '10 HDRAW A$:PLAY B$:A=INSTR(1,A$,B$):C$=STRING$(3,"X"):B=VAL(A$):HPRINT(1,2),C$:PRINT A;B:INPUT A\n',
+]
+
+
 def cases(tier, seed):
     n = 400 if tier == "quick" else 60000
     names = ["prog", "my-p", "A_1", "x", "9lives", "bad name", "é", "", "Zz-9_"]
+    k = 0
+    for t in MAXIMAL:
+        for size in (32, 64, 200, 16, 1, 31, 255):
+            k += 1
+            yield {"seed": k, "size": size, "procname": names[k % len(names)], "hostile": False, "fixed_program": t}
     for i in range(n):
         yield {"seed": seed * 2654435 + i, "size": [32, 64, 200, 16, 1, 31][i % 6], "procname": names[i % len(names)],
                "hostile": i % 4 != 3, "sample": i % 150 == 0}
